@@ -103,6 +103,9 @@ func contentPlan(prop string, tier string, root *simcore.RNG, sinks []string, nq
 					if cnt > 60000 && k > 0 {
 						continue
 					}
+					if cnt > 70000 && sink != "stl" {
+						continue // the text formats take minutes at this size on the -race build
+					}
 					kind := "script3"
 					if sink == "dxf" || sink == "svg" {
 						kind = "script2"
@@ -117,7 +120,10 @@ func contentPlan(prop string, tier string, root *simcore.RNG, sinks []string, nq
 					if r.Intn(2) == 0 {
 						sc.Env.Race = true
 					}
-					if cnt > 60000 {
+					if cnt > 60000 && sink != "stl" {
+						sc.Env.Race = false
+					}
+					if cnt > 60000 && sink == "stl" {
 						if len(j.Batches[0]) == 1 && j.Batches[0][0].Count == 1 {
 							sc.Groups[0][0].Batches = genPartition(r, cnt, 1, "chunks")
 						}
